@@ -26,6 +26,7 @@ def _carriers():
         "resolve_fragment": lambda root, tier: tasks_resolver.resolver_tasks(root, 2 * _tmo(tier), which=("resolve_fragment",)),
         "resolve": lambda root, tier: tasks_resolver.resolver_tasks(root, 2 * _tmo(tier), which=("resolve",)),
         "format_keyword": lambda root, tier: [t for t in tasks_format.format_tasks(root, _tmo(tier)) if t.which == "keyword"],
+        "xpaths": lambda root, tier: tasks_core.core_tasks(root, _tmo(tier), which=("iter_errors_x", "ref_x")) + [tasks_core.CoreTask(root, 7, "scope_cm_x", _tmo(tier))],
     }
 
 
@@ -711,7 +712,7 @@ class C14(Spec):
 
 class C19(Spec):
     pid = "C19"
-    carry = ('validator_for',)
+    carry = ('validator_for', 'xpaths')      # the CLI reuses ONE validator for all instances: the exit-path obligations carry "each instance yields exactly the library's errors"
     level = "proof"
     design_ref = "DESIGN.md section 8 C19"
     trusted = ["the file system is an environment function FS(path) in {missing, not JSON, json(v)}; the built-ins are assumed: open() raises OSError(errno=ENOENT) exactly for a missing file, json.load returns v or raises JSONDecodeError, `with file` closes it; _Outputter.load / validation_error / validation_success / parsing_error / filenotfound_error are PROVED against the contract cli.run uses (task cli:outputter)",
@@ -986,7 +987,7 @@ class C02(Spec):
 
 class C15(Spec):
     pid = "C15"
-    carry = ('resolve_fragment',)
+    carry = ('resolve_fragment', 'is_valid')      # a retrieval failure surfaces as RefResolutionError through every entry point
     level = "proof"
     design_ref = "DESIGN.md section 8 C15"
     trusted = [
